@@ -14,6 +14,7 @@ fn go<T: Elem + Clone>(ops: &Rows, mon: &mut Mon) -> Rows {
     let _ = take_drops();
     for (k, op) in ops.iter().enumerate() {
         let mut row: Vec<i64>;
+        let before = oracle.clone();
         match op[0] {
             0 => {
                 let x = T::mk(op[1]);
@@ -84,11 +85,26 @@ fn go<T: Elem + Clone>(ops: &Rows, mon: &mut Mon) -> Rows {
         if v.capacity() < v.len() { mon.fail(format!("op{} capacity<len", k)); }
         if v.is_empty() != oracle.is_empty() || (v.len() > 0 && v.as_ptr() != v.as_mut_ptr() as *const T) { mon.fail(format!("op{} is_empty/as_ptr disagree", k)); }
         out.push(row);
-        out.push(take_drops());
+        // monitor: every element is destroyed exactly once — the destructors that ran during this op are exactly those std::Vec runs
+        let ran = take_drops();
+        let mut want: Vec<i64> = match op[0] {
+            2 => if (op[1] as usize) <= before.len() { vec![] } else { vec![T::norm(op[2])] },      // rejected insert: the argument is destroyed by the unwinding
+            5 | 7 => before.clone(),                                                                   // the replaced vector goes away with all its elements
+            6 => if (op[1] as usize) < before.len() { vec![before[op[1] as usize]] } else { vec![T::norm(op[2])] },
+            _ => vec![],
+        };
+        let mut got = ran.clone();
+        want.sort(); got.sort();
+        if got != want { mon.fail(format!("op{} destructors ran for {:?}, std::Vec runs them for {:?}", k, got, want)); }
+        out.push(ran);
     }
     drop(v);
     out.push(vec![99]);
-    out.push(take_drops());
+    let ran = take_drops();
+    let (mut got, mut want) = (ran.clone(), oracle.clone());
+    got.sort(); want.sort();
+    if got != want { mon.fail(format!("final drop: destructors ran for {:?}, the vector held {:?}", got, want)); }
+    out.push(ran);
     out
 }
 
